@@ -196,6 +196,23 @@ for _fn in ["IndexNonASCII", "ContainsNonASCII"]:
     FN_KINDS[_fn] = "s"
 
 
+# properties whose statement IS "the result equals this definition" (a disagreement with Spec / the scalar
+# definition is an input on which the property fails); for the others a disagreement is a broken
+# correspondence; for C05/C18 the theorems are about the effect summary, not about Spec
+SPEC_DEFINES = {"C01", "C02", "C04", "C08", "C09", "C10", "C11", "C12", "C13", "C15"}
+SPEC_IRRELEVANT = {"C05", "C18"}
+
+
+def own_failure(pid, m):
+    """is a model/implementation disagreement by itself an input on which property pid fails?"""
+    obs = (str(m.get("strcase")), str(m.get("bytcase")))
+    if pid == "C06" and any(o.startswith(("PANIC", "HANG", "FAULT")) for o in obs):
+        return "panic / hang / fault"
+    if pid == "C07" and obs[0] != obs[1]:
+        return "parity"
+    return None
+
+
 def harness_replay(line):
     rc, out, _ = run([os.path.join(BUILD, "bin", "harness"), "-replay", line], timeout=60)
     d = {}
@@ -246,7 +263,21 @@ def check_property(pid, tier, seed):
     # folding orbits no longer check, Spec is no longer the authority on fold-equality: the reference over the
     # toolchain's orbits is, and only a case on which the CODE departs from it is a failing input
     tables_broken = (not proofs_ok) and any("FoldFacts" in str(x) for x in st["coq_failed"])
+    corr_break = None
     for m in mism:
+        if pid in SPEC_IRRELEVANT:
+            diagnostics.append(dict(m, kind="implementation != Spec (not what this property's theorems are about)"))
+            continue
+        if own_failure(pid, m):
+            violations.append(dict(m, kind=own_failure(pid, m)))
+            continue
+        if pid not in SPEC_DEFINES:
+            # the property is not "the result equals Spec": a disagreement with Spec is a broken correspondence
+            # (the model the theorems are about is no longer what the code does), not an input on which THIS
+            # property fails; it is reported as such unless a failing input of the property itself is found
+            if corr_break is None or len(m["case"]) < len(corr_break["case"]):
+                corr_break = m
+            continue
         if tables_broken:
             if m.get("go_ref") and (m["strcase"] != m["go_ref"] or m["bytcase"] != m["go_ref"]):
                 violations.append(dict(m, kind="implementation != reference over the toolchain's folding orbits "
@@ -257,10 +288,13 @@ def check_property(pid, tier, seed):
         if f["kind"] in ("relation", "hang", "alloc", "race", "kernel", "config", "mutated", "copy", "table"):
             violations.append({"kind": f["kind"], "fn": f.get("fn"), "case": f.get("case"), "detail": f.get("detail"),
                                "strcase": f.get("strcase"), "bytcase": f.get("bytcase")})
+        elif f["kind"] == "panic" and pid == "C06":
+            violations.append({"kind": "panic", "fn": f.get("fn"), "case": f.get("case"), "detail": f.get("detail"),
+                               "strcase": f.get("strcase"), "bytcase": f.get("bytcase")})
         elif f["kind"] == "parity" and pid == "C07":
             violations.append({"kind": "parity", "fn": f.get("fn"), "case": f.get("case"),
                                "strcase": f.get("strcase"), "bytcase": f.get("bytcase")})
-    if tables_broken:
+    if tables_broken and pid in SPEC_DEFINES:
         for f in sorted(stats.get("findings") or [], key=lambda f: len(str(f.get("case")))):
             if f["kind"] == "ref-mismatch":
                 violations.append({"kind": "implementation != reference over the toolchain's folding orbits "
@@ -316,6 +350,17 @@ def check_property(pid, tier, seed):
         path = write_replay(pid, {"violation": v, "others": reported[1:20], "seed": seed, "tier": search_tier,
                                   "proofs_ok": proofs_ok, "coq_failed": st["coq_failed"][:5]})
         print("VIOLATION property=%s replay=%s" % (pid, path))
+        exit_code = 1
+    elif corr_break is not None and proofs_ok:
+        path = write_replay(pid, {"violation": {"kind": "correspondence no longer checks",
+                                                "correspondence": "extracted Spec / Impl models (coq/extract) vs both packages on the cases "
+                                                                  "generated for this property: the model this property's theorems are about "
+                                                                  "is no longer what the code computes",
+                                                "example_disagreement": corr_break,
+                                                "note": "the disagreement is NOT an input on which this property fails; the search found none"},
+                                  "search": {"tier": search_tier, "evaluations": stats.get("evaluations"), "model_cases": ncases},
+                                  "seed": seed})
+        print("VIOLATION property=%s replay=%s no-failing-input-found" % (pid, path))
         exit_code = 1
     elif not proofs_ok:
         path = write_replay(pid, {"violation": {"kind": "proof obligation no longer checks",
